@@ -758,8 +758,11 @@ void Interpret::getValue(std::vector<ASTNode*> const & terms)
             values.push_back({termNode, model->evaluate(tr)});
             auto pt_str = logic.termToSMT2String(tr);
             comment_formatted("Found the term %s", pt_str.c_str());
-        } else
-            comment_formatted("Error parsing the term %s", (**(term.children->begin())).getValue());
+        } else {
+            // a term that cannot be parsed is an error of the command, not something to leave out of the answer
+            notify_formatted(true, "get-value: a term is not well-formed in the current logic");
+            return;
+        }
     }
     try {
         std::cout << '(';
